@@ -7,7 +7,7 @@ tab = json.load(open(sys.argv[1]))
 for sid, t in tab["seeds"].items():
     d = f"/verif/seeded/{sid}"
     conf = open(f"{d}/confirm.txt").read()
-    res = re.findall(r"RESULT \S+(?: \(extlink\))? without=(\d+) with=(\d+)", conf)
+    res = re.findall(r"RESULT \S+(?: \([^)]*\))? without=(\d+) with=(\d+)", conf)
     r0, r1 = map(int, res[-1])
     kept = "stable passes kept: 45/45" in conf
     ev = ""
@@ -15,15 +15,17 @@ for sid, t in tab["seeds"].items():
     if os.path.exists(p):
         out = open(p).read()
         m = re.search(r"^violation class.*$", out, re.M)
-        caught = f"VIOLATION property={sid[:3]}" in out
-        ev = (f"{sid}: CAUGHT  " + (m.group(0)[:200] if m else "")) if caught else f"{sid}: MISSED"
+        prop = t.get("prop", sid[:3])
+        mm = re.search(r"VIOLATION property=(C\d\d)", out)
+        caught = mm is not None
+        ev = (f"{sid}: CAUGHT by {mm.group(1)}  " + (m.group(0)[:200] if m else "")) if caught else f"{sid}: MISSED by every check that was run"
     meta = {
-        "property": sid[:3], "wave": tab["wave"], "origin": tab["origin"],
+        "property": t.get("prop", sid[:3]), "wave": tab["wave"], "origin": tab["origin"],
         "needs_to_manifest": t["needs"],
         "files": {"patch": "patch.diff", "demonstration": "demo/", "agent_notes": "notes.md", "my_confirmation_log": "confirm.txt"},
         "confirmed_by_me": {"how": t.get("how", "gen/confirm_seeded.sh (fresh worktree of /repo HEAD, demo without / with the patch, go build, existing suite vs BASELINE.json stable_pass)"),
                             "demo_exit_without_patch": r0, "demo_exit_with_patch": r1, "stable_passes_kept": kept},
-        "check_result": ev, "history": t["history"], "how_run": f"gen/eval_seeded.sh {sid}",
+        "check_result": ev, "history": t["history"], "how_run": (f"gen/eval_seeded_any.sh {sid}" if "prop" in t else f"gen/eval_seeded.sh {sid}"),
     }
     json.dump(meta, open(f"{d}/meta.json", "w"), indent=1)
     print(sid, r0, r1, kept, ev[:90])
